@@ -64,6 +64,11 @@ def seeded(ctx, rng, n):
         if abs(shift) >= 1000:
             tol = max(tol, 1e-9)   # absolute tolerance cannot go below the spacing of doubles near 1000
         k1, k2, n0 = rng.uniform(0.05, 1.0), rng.uniform(1.05, 2.6), float(rng.choice([0, 1, 2]))
+        if rng.random() < 0.3:
+            # k_2 = 2 is the documented value, and the only kind for which x^k_2 is defined for a negative x: the powers
+            # of the signed width (right - left) then do not turn into NaN for decreasing functions
+            k2 = 2.0
+            k1 = 10.0 ** (-rng.uniform(0.5, 3))
         r = rng.random()
         if r < 0.05:
             tol = -tol
